@@ -194,7 +194,14 @@ impl InputCondition for SAct {
 
 pub fn build_mod(spec: &ModSpec) -> Box<dyn InputModifier> {
     match *spec {
+        // the named constructors where the spec is one of theirs, the literal otherwise
+        ModSpec::Negate(true, true, true) => Box::new(Negate::all()),
+        ModSpec::Negate(false, false, false) => Box::new(Negate::none()),
+        ModSpec::Negate(true, false, false) => Box::new(Negate::x()),
+        ModSpec::Negate(false, true, false) => Box::new(Negate::y()),
+        ModSpec::Negate(false, false, true) => Box::new(Negate::z()),
         ModSpec::Negate(x, y, z) => Box::new(Negate { x, y, z }),
+        ModSpec::Scale(x, y, z) if x == y && y == z => Box::new(Scale::splat(x)),
         ModSpec::Scale(x, y, z) => Box::new(Scale::new(Vec3::new(x, y, z))),
         ModSpec::Swizzle(index) => Box::new(match index {
             0 => SwizzleAxis::YXZ,
@@ -213,6 +220,7 @@ pub fn build_mod(spec: &ModSpec) -> Box<dyn InputModifier> {
                 .with_lower_threshold(lo)
                 .with_upper_threshold(hi),
         ),
+        ModSpec::Exp(x, y, z) if x == y && y == z => Box::new(ExponentialCurve::splat(x)),
         ModSpec::Exp(x, y, z) => Box::new(ExponentialCurve::new(Vec3::new(x, y, z))),
         ModSpec::DScale => Box::new(DeltaScale),
         ModSpec::DLerp(speed) => Box::new(DeltaLerp::new(speed)),
